@@ -29,6 +29,8 @@ pub enum Kind {
     Cmp = 16,
     Identity = 17,
     RunLen = 18,
+    /// the (uninstrumented-by-stage) flat_map closure of the nested sources
+    SrcFlat = 19,
 }
 impl Kind {
     fn from(x: u8) -> Kind {
@@ -51,6 +53,7 @@ impl Kind {
             16 => Kind::Cmp,
             17 => Kind::Identity,
             18 => Kind::RunLen,
+            19 => Kind::SrcFlat,
             _ => panic!("bad kind"),
         }
     }
@@ -58,7 +61,7 @@ impl Kind {
     pub fn is_closure(self) -> bool {
         matches!(
             self,
-            Kind::Stage | Kind::Pred | Kind::Red | Kind::Key | Kind::ForEach | Kind::Cmp | Kind::Identity
+            Kind::Stage | Kind::Pred | Kind::Red | Kind::Key | Kind::ForEach | Kind::Cmp | Kind::Identity | Kind::SrcFlat
         )
     }
 }
@@ -334,4 +337,12 @@ pub fn src_exit(result: Option<u64>) {
         None => record(Kind::SrcNone, 0, 0, 0),
     }
     SRC_BUSY.store(false, Ordering::SeqCst);
+}
+
+/// closure of the nested sources' own flat_map stage: counted as a user closure call (laziness), not as a chain stage
+#[inline]
+pub fn src_flat_call(group: u64) {
+    crate::sched::yield_point();
+    CLOSURE_CALLS.fetch_add(1, Ordering::SeqCst);
+    record(Kind::SrcFlat, 0, 0, group);
 }
